@@ -330,7 +330,10 @@ private:
           }
           UNIFEX_CATCH(...) { source_cleanup_error(std::current_exception()); }
 
-          if (!stream_.cleanupReady_.load(std::memory_order_acquire)) {
+          // If next() was never started on the trigger there is no trigger
+          // operation whose completion could start the trigger cleanup later.
+          if (stream_.triggerNextStarted_ &&
+              !stream_.cleanupReady_.load(std::memory_order_acquire)) {
             stream_.cleanupOperation_ = this;
             stream_.stopSource_.request_stop();
             if (!stream_.cleanupReady_.exchange(
